@@ -18,8 +18,8 @@ RULE = (
     "agree too; two jobs exist both as a directly created CsvPath and as a CsvPaths-managed run and must give the same lines, variables, verdict and counters; non-trivial = the history contains two different jobs; state = (job, position in history)"
 )
 BOUNDS = {
-    "quick": "31 jobs (three under non-default dialects, two on a file with blank records): 31 fresh-process references + 15 warm-cache fresh processes; all 961 ordered pairs (fresh CsvPaths per job) + 225 ordered pairs of CsvPaths jobs on ONE shared instance + 1,000 triples over a 10-job subset; 4 direct-vs-managed twin pairs",
-    "thorough": "all pairs, all 29,791 triples, shared-instance triples, sequences of 4 over a 6-job subset",
+    "quick": "33 jobs (three under non-default dialects, two on a file with blank records, two on a file whose header cells need non-idempotent cleaning): 33 fresh-process references + 16 warm-cache fresh processes; all 1,089 ordered pairs (fresh CsvPaths per job) + 256 ordered pairs of CsvPaths jobs on ONE shared instance + 1,000 triples over a 10-job subset; 5 direct-vs-managed twin pairs",
+    "thorough": "all pairs, all 35,937 triples, shared-instance triples, sequences of 4 over a 6-job subset",
 }
 CHUNK = 20
 BUDGET = {"quick": 600, "thorough": 3400}
@@ -37,6 +37,7 @@ HS = [[" a b ", "c d"], ["k", "1"]]       # spaces
 HN = [["a\nb", "c"], ["k", "1"]]          # embedded newline
 HE = [[], ["k", "1"], ["n", "2"]]         # blank first record
 HQ2 = [["it's", 'say "x"'], ["k", "1"]]
+HP = [["name |", "; x", "a`b "], ["k", "1", "2"]]  # delimiter-like characters at the edge of a header cell, next to a space: cleaning is not idempotent
 HB = [["h1", "h2"], ["k", "1"], [], ["n", "2"], [], [], ["k", "3"], []]  # blank records: physical and data line totals differ
 
 JOBS = [
@@ -71,12 +72,14 @@ JOBS = [
     {"kind": "path", "match": '[push("h", header_name(1)) @n = count_headers() #h1 == "k"]', "rows": A, "dialect": [";", '"']},
     {"kind": "path", "match": '[@t = total_lines() @c = count_lines() push("ln", line_number()) last() -> @l = line_number()]', "rows": HB},
     {"kind": "paths", "match": '[@t = total_lines() @c = count_lines() push("ln", line_number()) last() -> @l = line_number()]', "rows": HB},
+    {"kind": "paths", "match": '[push("h", header_name(0)) push("h", header_name(1)) push("h", header_name(2)) @n = count_headers()]', "rows": HP},
+    {"kind": "path", "match": '[push("h", header_name(0)) push("h", header_name(1)) push("h", header_name(2)) @n = count_headers()]', "rows": HP},
 ]
 PATHS_JOBS = [i for i, j in enumerate(JOBS) if j["kind"] == "paths"]
 SUB10 = [0, 1, 2, 3, 4, 5, 12, 14, 17, 19]
 SUB6 = [1, 2, 5, 14, 17, 21]
 
-TWINS = [(7, 20), (12, 14), (28, 26), (29, 30)]  # same csvpath and file: CsvPath created directly vs by a CsvPaths instance
+TWINS = [(7, 20), (12, 14), (28, 26), (29, 30), (32, 31)]  # same csvpath and file: CsvPath created directly vs by a CsvPaths instance
 
 REFS = {}
 WARM = {}
